@@ -665,9 +665,25 @@ class C06(Prop):
     def gen_cases(self, rng, n, tier):
         cases = [gen_case(rng, tier) for _ in range(n)]
         r2 = random.Random(rng.random())      # drawn after the others: those stay as they were
-        return cases + [SRC.gen_sources_case(r2) for _ in range(max(1, n // 2))]
+        return cases + [SRC.gen_sources_case(r2) for _ in range(max(1, n // 2))] + [self.gen_ops_case(r2) for _ in range(max(3, n // 25))]
 
     # ------------------------------------------------------------------ both sides
+    @staticmethod
+    def gen_ops_case(rng):
+        """a ONE-document include under a key that already holds content, the included document holding premerge operators
+        (`x: !append [4]`, `!extend`, `!prev`): the file is merged on its own first (an operator without a previous value becomes a
+        plain list / fails there), then placed under the key - whatever the key holds already (seeded change S4-C06). Only the
+        `nested_after` arrangement, whose expectation is computed through the node API."""
+        items = [('x', Q([S(v) for v in rng.sample([1, 2, 3, 7], rng.choice([1, 2, 3]))])), ('y', M([('p', S(1))])), ('z', S(0))]
+        opk = rng.choice(['append', 'extend', 'extend'])
+        items[0] = ('x', Q([S(rng.choice([4, 8]))], tag=opk))
+        if rng.random() < 0.3:
+            items.append(('w', Stext('y', 'prev')))
+        doc = M(items)
+        # the copy of the document that nested_after writes under the key first: there the operator has nothing before it either
+        c = mk_case([doc], groups=[[0]], arrs=['nested_after'], key=rng.choice([['k'], ['k', 'in'], ['a']]))
+        return c
+
     def impl(self, case):
         if case.get('kind') == 'sources':
             return SRC.impl(case)
